@@ -1,8 +1,8 @@
 //@kani host=src/subdevice/mod.rs
 // C15: the mailbox counter carried by every CoE request (SubDevice::mailbox_counter, a fetch_update on an AtomicU8).
 // Loop-free for a single caller (the CAS of fetch_update succeeds at once; unwinding assertions on) and over every stored
-// value: complete, not bounded.  The stored value is initialised to 1 by SubDevice::new (src/subdevice/mod.rs, literal
-// `AtomicU8::new(1)`; `new` itself is an async EEPROM-reading constructor and is not run here - ASSUMED).
+// value: complete, not bounded.  The stored value is initialised to 1 by SubDevice::new - proved on the extracted tail of
+// `new` in the Verus unit init_addr (postcondition `mailbox_counter.init == 1`).
 use super::*;
 use crate::verif_vk as vk;
 
